@@ -45,6 +45,30 @@ TARGETS["both"] = [(m, SRC2[g]) for m, _, g in METHODS2]
 PMEMO2 = {0: True, 1: True, 2: True, 3: False}      # checked against the driver on every schedule (a wrong entry = drift)
 
 
+def asdict_order(names):
+    """iteration order of `set(attrs)` inside as_dict (same interpreter, same hash seed)"""
+    return list(set(names))
+
+
+def expand2(progs):
+    """model-level programs: per thread a list of (item, gated). `["asdict", [m, …]]` is ONE gated call of the real
+    p.as_dict(attrs=[…]) and stands for the model items acquire · call m … (in the iteration order of set(attrs)) · exit"""
+    out = []
+    for pr in progs:
+        mp = []
+        for it in pr:
+            if it[0] == "asdict":
+                names = [METHODS2[i][0] for i in it[1]]
+                idx = {METHODS2[i][0]: i for i in it[1]}
+                mp.append((["acquire"], True))
+                mp += [(["call", idx[n]], False) for n in asdict_order(names)]
+                mp.append((["exit"], False))
+            else:
+                mp.append((it, True))
+        out.append(mp)
+    return out
+
+
 def grants2(pc, ff, g):
     """parks of the implementation that one step of the two-level model stands for"""
     fm, pm = ff is not None, PMEMO2.get(g, False)
@@ -135,6 +159,7 @@ class Sched:
     def _scan(self, code, what):
         vis = {}
         prev_global = None
+        last_deref = None
         for ins in dis.get_instructions(code):
             kind = None
             if what == "wrapper":
@@ -142,8 +167,13 @@ class Sched:
                     kind = "load"
                 elif ins.opname == "BINARY_SUBSCR":
                     kind = "lookup"
+                elif ins.opname == "LOAD_DEREF":
+                    last_deref = ins.argval
                 elif ins.opname == "CALL":
-                    kind = "compute"
+                    # only `fun(self)` is the read; other calls of a wrapper (threading.get_ident()) are thread-local
+                    if last_deref == "fun":
+                        kind = "compute"
+                    last_deref = None
                 elif ins.opname == "STORE_SUBSCR":
                     kind = "store"
             elif what == "activate":
@@ -210,6 +240,14 @@ class Sched:
                 if item[0] == "call":
                     meth = TARGETS[self.target_name][item[1]][0]
                     out.append(self.impl.outcome(meth, getattr(self.p, meth)))
+                elif item[0] == "asdict":
+                    names = [TARGETS[self.target_name][i][0] for i in item[1]]
+                    try:
+                        d = self.p.as_dict(attrs=names)
+                        for n in asdict_order(names):
+                            out.append(self.impl.outcome(n, lambda n=n: d[n]))
+                    except BaseException as e:  # noqa: BLE001
+                        out.append({"kind": "exc", "exc": type(e).__name__, "at": "as_dict"})
                 elif item[0] == "acquire":
                     cm = self.p.oneshot()
                     try:
@@ -259,7 +297,8 @@ class Sched:
                 self._wait_parked(tid)
             files = SRC2 if self.two else [f for _, f in TARGETS[self.target_name]]
             dirty = set()
-            nxt = {tid: 0 for tid in range(len(progs))}      # two levels: index of each thread's next program item
+            nxt = {tid: 0 for tid in range(len(progs))}      # two levels: index of each thread's next MODEL-level program item
+            mprogs = expand2(progs) if self.two else None     # … as_dict(names) = acquire · calls · exit, gated once
             cur = {}                                          # … and the (front-end memoised?, helper memoised?) of its current call
             for st in steps:
                 if st["k"] == "ver":
@@ -276,12 +315,15 @@ class Sched:
                         dirty.clear()
                     if self.two:
                         tid = st["tid"]
+                        gate = True
                         if st["pc"] in ("call", "acquire", "exit"):
-                            item = progs[tid][nxt[tid]]
+                            item, gate = mprogs[tid][nxt[tid]]
                             nxt[tid] += 1
                             if item[0] == "call":
                                 cur[tid] = METHODS2[item[1]][1:]
                         kinds = grants2(st["pc"], *cur.get(tid, (None, None)))
+                        if not gate:
+                            kinds = [k for k in kinds if k != "gate"]
                     else:
                         kinds = GRANTS[st["pc"]]
                     for kind in kinds:
@@ -387,10 +429,24 @@ def gen_case2(rng, family):
         progs = [block(0, 2, [m2] + same) + calls(0, 1, [m2]), calls(0, 1, [m2]) + block(0, 2, [m2] + same)]
     elif family == "front_only":            # memory_info: front-end memoised, helper not decorated
         progs = [block(1, 2, [5]) + block(0, 1, [5, m2]), calls(1, 2, [5]) + calls(0, 1, [m2])]
+    elif family == "nested":                # RLock re-entrance: a nested block (no-op level) inside the owner's block
+        progs = [[["acquire"]] + calls(0, 1, [m2] + same) + [["acquire"]] + calls(0, 2, [m2] + same) + [["exit"]] +
+                 calls(0, 1, [m2] + same) + [["exit"]] + calls(0, 1, same), calls(1, 2, [m2] + same)]
+    elif family == "asdict_owner":          # as_dict() is the block; a plain caller races with it
+        progs = [[["asdict", pick_names(rng, m2, same)]] + calls(0, 1, same), calls(1, 2, [m2] + same)]
+    elif family == "asdict_in_block":       # as_dict() inside the owner's block = a nested no-op level
+        progs = [[["acquire"]] + calls(0, 1, same) + [["asdict", pick_names(rng, m2, same)]] + calls(0, 1, [m2]) + [["exit"]],
+                 calls(1, 2, [m2] + same)]
+    elif family == "asdict_vs_block":       # as_dict() from ANOTHER thread while a block is open: it waits for the lock
+        progs = [block(1, 2, [m2] + same) + calls(0, 1, same), [["asdict", pick_names(rng, m2, same)]] + calls(0, 1, [m2])]
+    elif family == "asdict_both":           # two threads call as_dict() on the same (shared) Process object
+        progs = [[["asdict", pick_names(rng, m2, same)]] + calls(0, 1, same),
+                 calls(0, 1, same) + [["asdict", pick_names(rng, m2, same)]]]
     else:                                   # same two-level method hammered across two blocks
         progs = [[["acquire"], ["call", m2], ["call", m2], ["exit"], ["acquire"], ["call", m2], ["exit"]],
                  [["call", m2], ["call", m2], ["call", m2]]]
-    srcs = sorted({METHODS2[it[1]][2] for pr in progs for it in pr if it[0] == "call"})
+    srcs = sorted({METHODS2[i][2] for pr in progs for it in pr if it[0] in ("call", "asdict")
+                   for i in ([it[1]] if it[0] == "call" else it[1])})
     n = rng.randrange(30, 90)
     picks = []
     if rng.random() < 0.5:
@@ -401,10 +457,20 @@ def gen_case2(rng, family):
             picks += [t] * rng.randrange(1, 11)
             t = 1 - t
     picks += [0, 1] * 60
+    if family in ("nested", "asdict_owner", "asdict_in_block", "asdict_vs_block", "asdict_both"):
+        picks += [0] * 70 + [1] * 70 + [0] * 70      # a thread may have waited for the lock during the alternation
     return {"target": "both", "progs": progs, "schedule": with_versions2(picks, srcs), "family": "two:" + family}
 
 
-SCHED_FAMILIES2 = ["two_vs_block", "two_in_block", "two_both", "front_only", "two_hammer"]
+def pick_names(rng, m2, same):
+    """distinct method indexes for one as_dict(attrs) call: the two-level method + up to two others on the same source"""
+    others = [x for x in same if x != m2]
+    rng.shuffle(others)
+    return [m2] + others[:rng.randrange(0, 3)]
+
+
+SCHED_FAMILIES2 = ["two_vs_block", "two_in_block", "two_both", "front_only", "two_hammer",
+                   "nested", "asdict_owner", "asdict_in_block", "asdict_vs_block", "asdict_both"]
 
 
 def corpus_cases2():
@@ -499,8 +565,8 @@ def driver_lines(cases):
     out = []
     for c in cases:
         if c["target"] == "both":
-            progs = [[["call", METHODS2[it[1]][1], METHODS2[it[1]][2]] if it[0] == "call" else it for it in pr]
-                     for pr in c["progs"]]
+            progs = [[["call", METHODS2[it[1]][1], METHODS2[it[1]][2]] if it[0] == "call" else it for it, _ in pr]
+                     for pr in expand2(c["progs"])]
             out.append({"op": "conc2", "progs": progs, "sched": c["schedule"]})
         else:
             out.append({"op": "conc", "obj": c["target"], "progs": c["progs"], "sched": c["schedule"]})
@@ -607,6 +673,8 @@ def correspond_concurrent(ctx, res, cases=None):
             impl_out, drift = run_case(impl, case, m)
             enabled = [(s["tid"], s["pc"]) for s in m["steps"] if s["k"] == "thr" and s["en"]]
             res.count("family:sched:" + case["family"].split(":")[0])
+            if case["family"].startswith("two:"):
+                res.count("family:sched:" + case["family"])
             res.count("sched_steps", len(enabled))
             for r in m["rets"]:
                 how = r.get("how")
